@@ -23,7 +23,8 @@ use std::collections::HashMap;
 use yavomrs::yavom::{myers_unfilled, Move, Point};
 
 use crate::constants::{
-    ARRAY_DESCRIPTOR_ORDER_FIELD, ARRAY_DESCRIPTOR_PREFIX, ARRAY_DESCRIPTOR_SEPARATOR, EMPTY_HASH,
+    ARRAY_DESCRIPTOR_ORDER_FIELD, ARRAY_DESCRIPTOR_PREFIX, ARRAY_DESCRIPTOR_SEPARATOR, DELETED_HASH,
+    EMPTY_HASH,
     FLATTEN_SUFFIX, HASH_FIELD, ID_FIELD, PATCH_DELETE, PATCH_INSERT, ROOT_ID,
     STRING_ESCAPE_PREFIX,
 };
@@ -75,7 +76,12 @@ pub fn digest_object(o: &Map<String, Value>) -> Result<String> {
     // alone (see DataStorage::read_object): an object made of nothing but a character code
     if o.len() == 1 {
         if let Some(Value::String(h)) = o.get(HASH_FIELD) {
-            if h.len() <= 8 && u32::from_str_radix(h, 16).is_ok() {
+            // ("d" and "e" are valid codes, but as digests they denote a deleted and an empty object)
+            if h.len() <= 8
+                && u32::from_str_radix(h, 16).is_ok()
+                && h != DELETED_HASH
+                && h != EMPTY_HASH
+            {
                 return Ok(h.to_owned());
             }
         }
